@@ -14,7 +14,18 @@
 (*  InitT/NextT  QGauss2 shapes: every (nx,ny), broadcasting model of _setup          *)
 (*               (TensorRefines), exported (TENSOR);                                  *)
 (*  InitD/NextD  every table with 2..4 nodes on an uneven grid with its exact         *)
-(*               trapezoid integral (TAB), laws of the interpolant (TableLaws).       *)
+(*               trapezoid integral (TAB), laws of the interpolant (TableLaws);       *)
+(*  InitN/NextN  re-entrant and aliasing histories on ONE QGauss object: calls begun  *)
+(*               inside the integrand of a call in progress (depth <= MaxDepth),       *)
+(*               integrands that overwrite the array they were given; three           *)
+(*               implementation-shaped variants of integrate_func are checked against *)
+(*               the property-level nest machine (NestRefines); every complete        *)
+(*               history is exported (NEST) for replay on a real object;              *)
+(*  InitR/NextR  what an integrand returns: every shape that broadcasts against the   *)
+(*               abscissa grid x every representation (RET, with the cell map the     *)
+(*               expected sum is formed with; RetLaws);                               *)
+(*  InitP/NextP  representations of tabulated data (DREP) and of interval end points  *)
+(*               per entry point (ETYPE).                                             *)
 EXTENDS Quadrature, Json
 
 CONSTANTS AMax,        \* interval end points a,b in -AMax..AMax, a # b
@@ -26,6 +37,9 @@ CONSTANTS AMax,        \* interval end points a,b in -AMax..AMax, a # b
           Variant,     \* "pinned" | "always" (correct) | "stale" (deviating, self-test)
           NMax,        \* QGauss2: nx, ny in 1..NMax
           FixedShapes, \* TRUE: weight grids built with shape (ny,nx); FALSE: pinned (nx,ny)
+          NestNpts,    \* point counts used in re-entrant histories
+          MaxNestCalls, MaxDepth,   \* calls per history, calls in progress at once
+          NestVariant, \* "local" (correct) | "reread" | "scratch" (deviating)
           DoExport
 
 VARIABLES phase, c, s, m, last
@@ -168,12 +182,115 @@ ChooseShape == /\ phase = "start"
 NextT == ChooseShape
 TensorRefines == phase = "tensor" => TensorMechOK(c.nx, c.ny, FixedShapes)
 
+\* ---- re-entrant and aliasing histories on one QGauss object -----------------------------------
+\* s = property-level nest state (the mechanism's point count is followed when the property allows it),
+\* m = implementation-shaped state, c.ev = the history so far, last = [ok, why] verdict of the last step
+InitN == phase = "start" /\ c = NoCase /\ s = NestNew(QNone) /\ m = NMechNew(QNone) /\ last = [ok |-> TRUE, why |-> "none"]
+NEv(op, kind, arg) == [op |-> op, kind |-> kind, arg |-> arg]
+\* every array that was handed to an integrand and not overwritten by that integrand still holds
+\* the mapped nodes of its call
+HeldOK(mm, ss) == \A k \in 1..Len(ss.fr) :
+    (ss.fr[k].kind = "func" /\ ss.fr[k].e # QNone /\ ~ss.fr[k].dirty) => NMechArray(mm, k) = <<k, ss.fr[k].e>>
+NConstruct == /\ phase = "start"
+              /\ \E n \in NestNpts \cup {QNone} :
+                    c' = [k |-> "nest", ctor |-> n, ev |-> <<>>] /\ s' = NestNew(n) /\ m' = NMechNew(n)
+              /\ phase' = "obj" /\ UNCHANGED last
+NEnter == /\ phase = "obj" /\ Len(s.fr) < MaxNestCalls /\ Len(s.stack) < MaxDepth
+          /\ \E kind \in Kinds : \E arg \in NestNpts \cup {QNone} :
+               LET E == EffSet(s.cache, arg) IN
+               IF E = {}
+               THEN \* no point count anywhere: the real call raises before the integrand is used
+                    /\ c' = [c EXCEPT !.ev = @ \o <<NEv("enter", kind, arg), NEv("exit", kind, arg)>>]
+                    /\ s' = NestPop(NestPush(s, s.cache, kind, QNone))
+                    /\ m' = [m EXCEPT !.fr = Append(@, [xi |-> 0, w |-> QNone])]
+                    /\ last' = [ok |-> TRUE, why |-> "none"]
+               ELSE LET m2 == NMechEnter(m, arg, NestVariant)
+                        e  == m2.npts
+                        s2 == NestPush(s, CacheAfter(s.cache, e), kind, e)
+                    IN /\ m' = m2
+                       /\ IF kind = "func"
+                          THEN /\ c' = [c EXCEPT !.ev = Append(@, NEv("enter", kind, arg))]
+                               /\ s' = s2
+                               /\ last' = [ok |-> e \in E, why |-> "point count"]
+                          ELSE \* tabulated data: no integrand, the call is atomic
+                               /\ c' = [c EXCEPT !.ev = @ \o <<NEv("enter", kind, arg), NEv("exit", kind, arg)>>]
+                               /\ s' = NestPop(s2)
+                               /\ last' = [ok |-> e \in E /\ HeldOK(m2, s2), why |-> "data call"]
+          /\ phase' = "obj"
+NMutate == /\ phase = "obj" /\ s.stack # <<>> /\ c.ev[Len(c.ev)].op = "enter"
+           /\ LET k == NestTop(s) IN
+                /\ m' = NMechMutate(m, k)
+                /\ s' = [s EXCEPT !.fr[k].dirty = TRUE]
+                /\ c' = [c EXCEPT !.ev = Append(@, NEv("mutate", "func", QNone))]
+           /\ phase' = "obj" /\ last' = [ok |-> TRUE, why |-> "none"]
+NExit == /\ phase = "obj" /\ s.stack # <<>>
+         /\ LET k == NestTop(s) IN
+              /\ c' = [c EXCEPT !.ev = Append(@, NEv("exit", "func", QNone))]
+              /\ s' = NestPop(s) /\ m' = m
+              \* the weights the sum is formed with belong to the point count of THIS call, and all
+              \* arrays handed out so far (this call's and the outer calls') are intact
+              /\ last' = [ok |-> NMechWeights(m, k, NestVariant) = s.fr[k].e /\ HeldOK(m, s), why |-> "exit"]
+         /\ phase' = "obj"
+NextN == NConstruct \/ NEnter \/ NMutate \/ NExit
+NestRefines == last.ok
+
+\* ---- what an integrand returns ----------------------------------------------------------------
+ScalarReps == {"pyfloat", "pyint", "np.float64", "np.float32", "np.int16", "0d", "0d-f4"}
+ArrayReps  == {"f8", "f4", "i8", "i2", ">f8", "list", "tuple", "F", "strided", "readonly"}
+RetShapes(dim, nx, ny) == IF dim = 1 THEN << <<>>, <<1>>, <<nx>> >>
+                          ELSE << <<>>, <<1>>, <<nx>>, <<1, 1>>, <<1, nx>>, <<ny, 1>>, <<ny, nx>> >>
+InitR == Blank
+ChooseGridR == /\ phase = "start"
+               /\ \E dim \in 1..2 : \E nx \in 1..NMax : \E ny \in 1..NMax : (dim = 1 => ny = 1) /\
+                     c' = [k |-> "rgrid", dim |-> dim, nx |-> nx, ny |-> ny]
+               /\ phase' = "rgrid" /\ Keep
+ChooseRet == /\ phase = "rgrid"
+             /\ LET shs == RetShapes(c.dim, c.nx, c.ny)  grid == <<c.ny, c.nx>> IN
+                \E i \in 1..Len(shs) : \E rep \in (IF shs[i] = <<>> THEN ScalarReps ELSE ArrayReps) :
+                \E vals \in (IF shs[i] = <<>> THEN {"const"} ELSE {"const", "varied"}) :
+                   c' = [k |-> "ret", dim |-> c.dim, nx |-> c.nx, ny |-> c.ny, sh |-> shs[i], rep |-> rep, vals |-> vals,
+                         map |-> RetMap(shs[i], grid), count |-> RetCount(shs[i]), full |-> RetIsFull(shs[i], grid, c.dim)]
+             /\ phase' = "ret" /\ Keep
+NextR == ChooseGridR \/ ChooseRet
+RetLaws == phase = "ret" =>
+    LET grid == <<c.ny, c.nx>> IN
+    /\ RetFits(c.sh, grid)
+    /\ Len(c.map) = c.nx * c.ny
+    /\ VRange(c.map) = 1..c.count                                          \* every returned value is used
+    /\ c.full => c.map = [q \in 1..(c.nx * c.ny) |-> q]
+    /\ (c.count = 1) => \A q \in 1..Len(c.map) : c.map[q] = 1              \* a constant goes to every cell
+    /\ \A j \in 1..c.ny : \A i \in 1..c.nx :                                \* broadcasting repeats along the axes of length 1
+          LET p == QPad2(c.sh) IN
+          /\ (p[1] = 1) => c.map[(j - 1) * c.nx + i] = c.map[i]
+          /\ (p[2] = 1) => c.map[(j - 1) * c.nx + i] = c.map[(j - 1) * c.nx + 1]
+
+\* ---- representations ----------------------------------------------------------------------------
+DataReps  == {"f8", "f4", "i8", "i4", "i2", "i1", "u1", "u2", ">f8", ">i4", "strided", "negstride", "readonly", "list", "tuple"}
+EndTypes  == {"float", "int", "np.float64", "np.float32", "np.int8", "np.int16", "np.int64", "np.uint8", "0-d array"}
+EndEntries == {"gauleg", "QGauss(n).integrate", "QGauss(n).integrate_func", "qgauss", "QGauss2.integrate_func"}
+InitP == Blank
+ChooseDRep == /\ phase = "start"
+              /\ \E xr \in DataReps : \E yr \in DataReps :
+                    c' = [k |-> "drep", xrep |-> xr, yrep |-> yr, mayreject |-> RepMayReject(xr) \/ RepMayReject(yr)]
+              /\ phase' = "drep" /\ Keep
+ChooseEType == /\ phase = "start"
+               /\ \E t \in EndTypes : \E en \in EndEntries : \E cont \in {"list", "tuple", "array"} :
+                     (en = "gauleg" => cont = "list") /\
+                     c' = [k |-> "etype", etype |-> t, entry |-> en, cont |-> cont]
+               /\ phase' = "etype" /\ Keep
+NextP == ChooseDRep \/ ChooseEType
+NextRP == NextR \/ NextP                 \* both in one run
+
 \* ---- export -----------------------------------------------------------------------------------
 Export == DoExport =>
     /\ (phase = "mom")  => PrintT(<<"MOM", ToJson(c)>>)
     /\ (phase = "nmom") => PrintT(<<"NMOM", ToJson(c)>>)
     /\ (phase = "kv")   => PrintT(<<"KV", ToJson(c)>>)
-    /\ (phase = "obj" /\ Len(c.calls) >= 1) => PrintT(<<"SEQ", ToJson(c)>>)
+    /\ (phase = "obj" /\ c.k = "seq" /\ Len(c.calls) >= 1) => PrintT(<<"SEQ", ToJson(c)>>)
     /\ (phase = "tensor") => PrintT(<<"TENSOR", ToJson(c)>>)
     /\ (phase = "tab") => PrintT(<<"TAB", ToJson(c)>>)
+    /\ (phase = "obj" /\ c.k = "nest" /\ s.stack = <<>> /\ Len(c.ev) >= 1) => PrintT(<<"NEST", ToJson(c)>>)
+    /\ (phase = "ret") => PrintT(<<"RET", ToJson(c)>>)
+    /\ (phase = "drep") => PrintT(<<"DREP", ToJson(c)>>)
+    /\ (phase = "etype") => PrintT(<<"ETYPE", ToJson(c)>>)
 =============================================================================
